@@ -383,6 +383,15 @@ Proof.
   rewrite wrap_u64_small by lia. reflexivity.
 Qed.
 
+Lemma flat_level_size_ok hdr bl :
+  0 <= hdr -> 0 <= bl -> hdr + bl < 2 ^ 64 -> flat_level_size hdr bl = Some (hdr + bl).
+Proof.
+  intros Hh Hb Hlt. unfold flat_level_size, cadd, cbin.
+  change (uac SIZE_T SIZE_T) with U64. unfold arith. cbn [is_signed].
+  rewrite (wrap_u64_small hdr) by lia. rewrite (wrap_u64_small bl) by lia.
+  rewrite wrap_u64_small by lia. reflexivity.
+Qed.
+
 Lemma ecount_nonneg es : 0 <= ecount es.
 Proof. induction es as [|e r IH]; cbn [ecount]; lia. Qed.
 
@@ -770,12 +779,18 @@ Section Message.
   Qed.
 
   Lemma msg_size_bytes_enc_aux :
+    len (enc_message be m hdrbg v) < 2 ^ 64 ->
     msg_size_bytes be b m (len pre) = Some (len (enc_message be m hdrbg v)).
   Proof.
-    unfold msg_size_bytes. rewrite msg_block_length_enc. cbn [obind].
+    intros Hsz. unfold msg_size_bytes. rewrite msg_block_length_enc. cbn [obind].
     unfold level_size_bytes, enc_message. fold hdr. rewrite len_app, len_msg_hdr.
     destruct (is_flat (m_level m)) eqn:Hfl.
-    - rewrite enc_level_flat by exact Hfl. reflexivity.
+    - rewrite enc_level_flat by exact Hfl.
+      unfold enc_message in Hsz. fold hdr in Hsz.
+      rewrite len_app, len_msg_hdr, enc_level_flat in Hsz by exact Hfl.
+      assert (Hh : 0 <= m_hdr_size m).
+      { pose proof (len_nonneg hdrbg). unfold wf_message in Hwf. lia. }
+      apply flat_level_size_ok; pose proof (len_nonneg (vblock v)); lia.
     - rewrite <- len_pre_hdr.
       rewrite (proj1 nav_all v be (m_level m) b (pre ++ hdr) post (default_fuel b)
                  msg_wf_level msg_fuel msg_buffer_split).
@@ -800,8 +815,8 @@ End Message.
 
 Theorem msg_size_bytes_enc : stmt_msg_size_bytes_enc.
 Proof.
-  unfold stmt_msg_size_bytes_enc. intros be m hdrbg v pre post Hwf.
-  apply (msg_size_bytes_enc_aux be m hdrbg v _ pre post Hwf eq_refl).
+  unfold stmt_msg_size_bytes_enc. intros be m hdrbg v pre post Hwf Hsz.
+  apply (msg_size_bytes_enc_aux be m hdrbg v _ pre post Hwf eq_refl Hsz).
 Qed.
 Print Assumptions msg_size_bytes_enc.
 
